@@ -76,9 +76,9 @@ def execSide (s : SideState) (stream op : String) (a : List String) : SideState 
     | none => (s, rrStateStr s)
     | some (_, e) =>
       let o := if kind == "ok" then Side.Res.Outcome.ok (addrs.map unhex) else Side.Res.Outcome.fail
-      let w : Side.Res.World := { entry := e, rr := s.rr, index := s.rrIndex }
+      let w : Side.Res.World := { entry := e, rot := { rr := s.rr, index := s.rrIndex } }
       let w' := Side.Res.worldStep s.resPort w o
-      let s' := { s with rr := w'.rr, rrIndex := w'.index,
+      let s' := { s with rr := w'.rot.rr, rrIndex := w'.rot.index,
                          resEntries := s.resEntries.map (fun p => if p.1 == host then (p.1, w'.entry) else p) }
       (s', rrStateStr s')
   | "pins", "new", [ms] =>
